@@ -367,6 +367,20 @@ def _arr(a):
 # running one obligation
 # --------------------------------------------------------------------------
 
+def _raised_in_repo(e):
+    """True when the innermost frame of the traceback is in the code under test
+    (or a library it called), False when the harness body itself raised."""
+    tb = e.__traceback__
+    frames = traceback.extract_tb(tb)
+    if not frames:
+        return False
+    in_repo = [f for f in frames if f.filename.startswith('/repo/')]
+    last = frames[-1].filename
+    if last.startswith('/verif/props/'):
+        return False
+    return bool(in_repo)
+
+
 class PathResult:
     def __init__(self, c, sess, chart):
         self.c = c
@@ -399,6 +413,8 @@ def explore(ob, anti_all=False):
         except core.SymxError:
             raise
         except Exception as e:      # the code under test raised on this path
+            if not _raised_in_repo(e):
+                raise
             exc = (type(e).__name__, repr(e)[:300], traceback.format_exc()[-2500:])
         finally:
             S.undo_patches()
